@@ -19,7 +19,23 @@ def run_tag(tag, tier, seed, workers):
     outer = [i for i in its if not i.get('inner')]
     cs = pmap(lambda it: sessions.run_item(it, 1), outer, workers)
     cs += [sessions.run_item(it, workers) for it in inner]
-    return sessions.finish(tag, its, cs, RULE if tag == 'C08' else None, ASSUME)
+    nb = 0
+    if tag == 'C08':
+        # sessions played by four BUNDLED clients (which follow whatever the table manager announces, where a transcript player would
+        # stop at the first departure): the log must still be what the rules give for the players' decisions
+        from . import C11net
+        net_items, _ = C11net.items(tier, seed)
+        net_items = [it for it in net_items if it.get('play') in ('lowest', 'highest') and it.get('bidding', 'scripted') == 'scripted']
+        ncs = pmap(lambda it: C11net.run_item(it, 1), net_items, workers)
+        for c in ncs:
+            c.n.pop('scenarios', None)
+        cs += ncs
+        nb = len(net_items)
+    res = sessions.finish(tag, its, cs, RULE if tag == 'C08' else None, ASSUME)
+    if nb:
+        res.coverage['sessions_with_bundled_clients'] = nb
+        res.coverage['rule'] += f'; + {nb} sessions (12-auction menu, 4 dealers x 4 vulnerabilities, a 3-board session) played by four bundled Clients, log compared with the reference records'
+    return res
 
 
 def run(tier, seed, workers):
